@@ -162,9 +162,11 @@ def expr_text(n, ren=None, hook=None):
         return n.qn if n.dk in ('enum', 'global', 'func') and n.qn else (n.n or '?')
     if k == 'MemberExpr':
         b = n.child('base')
+        if not n.n:
+            return T(b)  # member of an anonymous struct/union: transparent
         if b is not None and b.k == 'CXXThisExpr':
-            return 'this->' + (n.n or '?')
-        return T(b) + ('->' if n.arrow else '.') + (n.n or '?')
+            return 'this->' + n.n
+        return T(b) + ('->' if n.arrow else '.') + n.n
     if k == 'CXXThisExpr':
         return 'this'
     if k == 'IntegerLiteral':
